@@ -276,6 +276,7 @@ impl Engine {
         w.st.native.skew_s = sw.skew;
         w.st.tx_index = sw.base_tx_index;
         w.zero_ibc_ok = sw.zero_ibc_ok;
+        w.zero_tf_ok = sw.zero_tf_ok;
         let lst = format!("factory/{}/{}", w.setup.staking_addr, w.setup.subdenom);
         let cfg = MCfg {
             batch_period: sw.batch_period,
@@ -624,7 +625,8 @@ impl Engine {
         let bal = self.w.st.bank.balance(&s, &ibc) as i128;
         let owed_a: i128 = self.m.batches.values().filter(|b| b.status == 2).map(|b| b.received.unwrap_or(0) as i128 - b.paid as i128).sum();
         let refunded_ibc = self.refunded_not_resent(&ibc);
-        let owed = owed_a + post.fees as i128 + refunded_ibc;
+        // (c) cannot be negative: re-sending more than was refunded takes tokens backing other claims
+        let owed = owed_a + post.fees as i128 + refunded_ibc.max(0);
         let unbacked = if self.known_c02_sweep { self.m.swept as i128 } else { 0 };
         if bal != owed - unbacked {
             self.vo("C02", "balance_eq_owed", format!("contract holds {} but owes batches {} + fees {} + refundable {} (unbacked swept {})", bal, owed_a, post.fees, refunded_ibc, self.m.swept));
@@ -643,7 +645,7 @@ impl Engine {
         let own_lst = self.w.st.bank.balance(&s, &lst) as i128;
         let pend_total = post.pending.as_ref().map(|b| b.total).unwrap_or(0) as i128;
         let refunded_lst = self.refunded_not_resent(&lst);
-        if own_lst != pend_total + refunded_lst {
+        if own_lst != pend_total + refunded_lst.max(0) {
             self.vo("C03", "own_lst_balance", format!("contract holds {} LST but pending batch has {} and refundable LST is {}", own_lst, pend_total, refunded_lst));
         }
         if refunded_lst < 0 {
